@@ -717,6 +717,8 @@ PROPS["C12"] = dict(
         K("c12", "c12_lan_writer_contract", desc="Lan writes origin, destination and the lower-case promotion letter, for every "
           "move value, through core::fmt", functions=["<Lan as IntoNotation<Move>>::into_notation", "Display for Square/File/Rank"],
           timeout=1500),
+        K("c12", "c12_lan_line_writer_contract", kind="bounded", bound="lines of <= 2 arbitrary moves", tier="thorough", heavy=True, desc="Lan for a line of moves (the `info pv` line): the moves' "
+          "coordinate texts in order, separated by single spaces, through core::fmt", functions=["<Lan as IntoNotation<&[Move]>>::into_notation"], timeout=2400),
         K("uci", "c12_uci_reader_inverts_lan", desc="the UCI move-token reader (closure body extracted verbatim from Client::exec) "
           "applied to the coordinate text of any move value returns the query with exactly that origin, destination and "
           "promotion, which matches the move", functions=["Client::exec move-token closure (extracted)"], timeout=1500),
